@@ -272,6 +272,108 @@ func runC01(c *Ctx) {
 		c.prevCheckpointStrict()
 	})
 
+	c.rule("C01.V3", "in-memory header list (validation baseline): PushBack stores its argument at the advanced tail slot and links it to the previous tail (looked up before the tail index moves); Back returns the tail slot; ResetHeaderState empties the list and pushes its argument", func() {
+		bmc := func(f string) *types.Var { return c.field("headerlist", "BoundedMemoryChain", f) }
+		pb := c.fn("(*headerlist.BoundedMemoryChain).PushBack")
+		tail := bmc("tailPtr")
+		chain := bmc("chain")
+		prevF := c.field("headerlist", "Node", "prev")
+		isSlot := func(v ssa.Value, idx func(ssa.Value) bool) bool {
+			ia, ok := v.(*ssa.IndexAddr)
+			return ok && loadsField(chain)(ia.X) && idx(ia.Index)
+		}
+		isTailLoad := func(v ssa.Value) bool { return isLoadOfPath(v, tail) }
+		// the node stored is the parameter, into chain[tailPtr]
+		okStore := false
+		var nodeStore ssa.Instruction
+		ir.Instrs(pb, func(in ssa.Instruction) {
+			st, ok := in.(*ssa.Store)
+			if !ok || !isSlot(st.Addr, isTailLoad) {
+				return
+			}
+			if ir.DerivesFrom(st.Val, func(x ssa.Value) bool { return x == ssa.Value(pb.Params[1]) }) {
+				okStore = true
+				nodeStore = in
+			}
+		})
+		c.verdict(okStore, c.nm(pb)+" | chain[tailPtr] = n", c.P.Pos(pb.Pos()), "the pushed node is the argument, stored at the tail slot", "PushBack does not store its argument at chain[tailPtr]")
+		// prev link = old tail, evaluated before tailPtr is advanced
+		tailStores := find(pb, storeToField(tail))
+		okPrev := len(tailStores) >= 1
+		var prevStores []ssa.Instruction
+		for _, st := range find(pb, storeToField(prevF)) {
+			v := st.(*ssa.Store).Val
+			if ir.IsNil(v) {
+				continue
+			}
+			prevStores = append(prevStores, st)
+			// value: phi / address of chain[old tailPtr]
+			okVal := ir.DerivesFrom(v, func(x ssa.Value) bool { return isSlot(x, isTailLoad) })
+			if !okVal {
+				okPrev = false
+			}
+		}
+		// the slot address used for prev is computed before the first store to tailPtr
+		if okPrev && len(prevStores) >= 1 {
+			ir.Instrs(pb, func(in ssa.Instruction) {
+				ia, ok := in.(*ssa.IndexAddr)
+				if !ok || !isSlot(ia, isTailLoad) {
+					return
+				}
+				feedsPrev := false
+				for _, ps := range prevStores {
+					if ir.DerivesFrom(ps.(*ssa.Store).Val, func(x ssa.Value) bool { return x == ssa.Value(ia) }) {
+						feedsPrev = true
+					}
+				}
+				if !feedsPrev {
+					return
+				}
+				// no store to tailPtr may precede it
+				for _, ts := range tailStores {
+					reach := false
+					ir.WalkAfter(ts, nil, func(x ssa.Instruction) bool {
+						if x == ssa.Instruction(ia) {
+							reach = true
+						}
+						return true
+					})
+					if reach {
+						okPrev = false
+					}
+				}
+			})
+		}
+		c.verdict(okPrev && len(prevStores) >= 1, c.nm(pb)+" | new tail's prev = the tail before the push", c.P.Pos(pb.Pos()), "prev link taken before tailPtr advances", "the prev link of a pushed node is not the element that was the tail before the push (ancestor walks and header validation would follow the wrong chain)", c.ats(prevStores)...)
+		if nodeStore != nil {
+			// prev is set after the node value has been copied into the slot
+			linkStore := func(in ssa.Instruction) bool {
+				return storeToField(prevF)(in) && !ir.IsNil(in.(*ssa.Store).Val)
+			}
+			c.neverAfter(pb, linkStore, "store of the prev link", func(in ssa.Instruction) bool { return in == nodeStore }, "chain[tailPtr] = n (would overwrite the link)", 1, nil)
+		}
+		bk := c.fn("(*headerlist.BoundedMemoryChain).Back")
+		okBack := false
+		for _, in := range find(bk, isExit) {
+			v := ir.RetVal(in.(*ssa.Return), 0)
+			if ir.IsNil(v) {
+				continue
+			}
+			okBack = isSlot(v, isTailLoad)
+		}
+		c.verdict(okBack, c.nm(bk)+" | returns &chain[tailPtr]", c.P.Pos(bk.Pos()), "tail slot", "Back does not return the tail slot")
+		rs := c.fn("(*headerlist.BoundedMemoryChain).ResetHeaderState")
+		pushM := c.method("headerlist", "BoundedMemoryChain", "PushBack")
+		okReset := false
+		for _, call := range find(rs, callTo(pushM)) {
+			okReset = ir.CallOf(call).Args[1] == ssa.Value(rs.Params[1])
+		}
+		for _, f := range []string{"headPtr", "tailPtr", "len"} {
+			c.mustPrecede(rs, storeToField(bmc(f)), "reset of "+f, callTo(pushM), "PushBack(n)", 1)
+		}
+		c.verdict(okReset, c.nm(rs)+" | pushes its argument after emptying the list", c.P.Pos(rs.Pos()), "PushBack(n)", "ResetHeaderState does not push its argument")
+	})
+
 	c.rule("C01.W1", "only the tabled functions write or roll back the block-header store (BlockHeaderStore.WriteHeaders / RollbackBlockHeaders / RollbackLastBlock)", func() {
 		w := bhsWrite()
 		rb := c.method("headerfs", "BlockHeaderStore", "RollbackBlockHeaders")
